@@ -98,7 +98,8 @@ class Exec(Engine):
         self.havoc_ghost(ns, "*")
         if any(o.st.taint for o in normals):
             ns.taint = sorted({t for o in normals for t in o.st.taint})
-        ns.events = base.events if all(len(o.st.events) == len(base.events) and all(a is b for a, b in zip(o.st.events, base.events)) for o in normals) else []
+        ns.events = base.events if all(len(o.st.events) == len(base.events) and all(a is b for a, b in zip(o.st.events, base.events)) for o in normals) else \
+            [Event("unknown-calls", "paths with different call histories merged at a cut", extra={"names": None})]
         ns.assumed = sorted({a for o in normals for a in o.st.assumed})
         names = set().union(*[set(o.st.env) for o in normals])
         env = {}
@@ -163,6 +164,7 @@ class Exec(Engine):
             self._hv[0] += 1
             st.hver[(okey, attr)] = self._hv[0]
         self.havoc_ghost(st, "*")
+        st.events.append(self.unknown_calls([s], fr, "skipped statement", line))
         outs = [Outcome("normal", st), Outcome("raise", st.fork(), exc=SExc("AnyError", line=line, origin="unsupported"))]
         # control flow that leaves the skipped statement: it may also return (any value) / break / continue
         esc = self.escaping_exits(s)
@@ -172,6 +174,35 @@ class Exec(Engine):
             if k_ in esc:
                 outs.append(Outcome(k_, st.fork()))
         return outs
+
+    def unknown_calls(self, nodes, fr, why, line=None):
+        """Event marker: calls may have happened here that the event list does not show (skipped statement, loop cut at its
+        invariant ...).  `names` = last components of the functions possibly called, or None when they cannot be named.  Trace
+        queries (called / ncalled / call_arg / called_before ...) about such a name are then not evaluable (undecided)."""
+        names = set()
+        seen = set()
+
+        def visit(n):
+            nonlocal names
+            for c_ in ast.walk(n):
+                if not isinstance(c_, ast.Call) or names is None:
+                    continue
+                f = c_.func
+                if isinstance(f, ast.Attribute):
+                    names.add(f.attr)
+                elif isinstance(f, ast.Name):
+                    names.add(f.id)
+                    v_ = fr.st.env.get(f.id)
+                    if v_ is not None and v_.k == "py" and isinstance(v_.t, FuncRef) and isinstance(v_.t.node, (ast.FunctionDef, ast.Lambda)) \
+                            and id(v_.t.node) not in seen and self.reg.get(v_.t.key) is None:
+                        seen.add(id(v_.t.node))
+                        visit(v_.t.node)          # a local closure / uncontracted helper that is inlined: its own calls too
+                else:
+                    names = None
+        for n_ in nodes:
+            if names is not None:
+                visit(n_)
+        return Event("unknown-calls", why, args=[], kwargs={}, line=line, extra={"names": names})
 
     @staticmethod
     def escaping_exits(s):
@@ -355,6 +386,7 @@ class Exec(Engine):
             st.add_taint(f"line {s.lineno}: {e}")
             self.note(f"unsupported test at line {s.lineno} of {fr.fn_key}: {e} -> both branches, arbitrary outcome")
             c = fresh("bool", "cond_unsupported").t
+            st.events.append(self.unknown_calls([s.test], fr, "unsupported test", s.lineno))
             for (okey, attr) in list(st.heap):          # whatever the test calls may have had any effect
                 st.heap.pop((okey, attr), None)
                 self._hv[0] += 1
@@ -826,7 +858,11 @@ class Exec(Engine):
         st.add_taint(f"loop at line {s.lineno} has no invariant")
         self.note(f"{fr.fn_key}: loop at line {s.lineno} has no sidecar invariant -> havoc+taint")
         self.havoc_loop(s, fr, None)
-        return [Outcome("normal", st)]
+        st.events.append(self.unknown_calls(list(s.body), fr, "loop without invariant", s.lineno))
+        outs = [Outcome("normal", st), Outcome("raise", st.fork(), exc=SExc("AnyError", line=s.lineno, origin="unsupported"))]
+        if "return" in self.escaping_exits(s):
+            outs.append(Outcome("return", st.fork(), val=fresh("V", "ret_unsupported")))
+        return outs
 
     def eval_clauses(self, clauses, fr, **subst):
         out = []
@@ -884,6 +920,7 @@ class Exec(Engine):
         sf = fr.sub(spec=True, st=st, old=fr.old if fr.old is not None else loop_entry)
         for name, f in self.eval_clauses(inv, sf):
             st.assume(f)
+        st.events.append(self.unknown_calls(list(s.body) + extra, fr, "iterations of a loop cut at its invariant", s.lineno))
         exit_st = st.fork()
         res = []
         # body
@@ -961,9 +998,14 @@ class Exec(Engine):
             st.add_taint(f"while loop at line {s.lineno} has no invariant")
             self.note(f"{fr.fn_key}: while loop at line {s.lineno} has no sidecar invariant -> havoc+taint")
             self.havoc_loop(s, fr, None)
-            c = self.truth(self.ev(s.test, fr), fr)
-            st.assume(z3.Not(c))
-            return [Outcome("normal", st)]
+            st.events.append(self.unknown_calls(list(s.body) + [s.test], fr, "loop without invariant", s.lineno))
+            outs = [Outcome("raise", st.fork(), exc=SExc("AnyError", line=s.lineno, origin="unsupported"))]
+            if "return" in self.escaping_exits(s):
+                outs.append(Outcome("return", st.fork(), val=fresh("V", "ret_unsupported")))
+            if not any(isinstance(n_, ast.Break) for n_ in ast.walk(s)):
+                c = self.truth(self.ev(s.test, fr), fr)
+                st.assume(z3.Not(c))          # left through its test (a `break` leaves with the test possibly still true)
+            return [Outcome("normal", st)] + outs
         st = fr.st
         idx = spec.get("idx", "_i")
         inv = [(c if not isinstance(c, str) else (f"inv{k}", c)) for k, c in enumerate(spec["inv"])]
@@ -983,6 +1025,7 @@ class Exec(Engine):
         sf = fr.sub(spec=True, st=st, old=fr.old if fr.old is not None else loop_entry)
         for name, f in self.eval_clauses(inv, sf):
             st.assume(f)
+        st.events.append(self.unknown_calls(list(s.body) + [s.test], fr, "iterations of a loop cut at its invariant", s.lineno))
         c = self.truth(self.ev(s.test, fr), fr)
         exit_st = st.fork()
         exit_st.assume(z3.Not(c))
